@@ -12,7 +12,7 @@ from ..fsim import INT_MAX, INT_MIN, w32
 PROPERTY = "C17"
 LEVEL = "exploration"
 TIMEOUT = 300
-BUDGET = {"quick": 170, "thorough": 1500}
+BUDGET = {"quick": 600, "thorough": 3600}
 REQUIRED_MONITORS = ["import_resolutions"]
 RULE = ("(a) Generated import graphs over library files written to a temporary tree (chains, diamonds, cycles, "
         "self-import, cycle through the main file, files in the importer's directory and in sub-directories, "
